@@ -236,7 +236,7 @@ pub fn corpus() -> Vec<String> {
     // every statement kind followed by statements starting with `(`
     let paren_call = Stmt::Call(call(Expr::Paren(Box::new(bin(BinOp::Or, name("f"), name("g")))), vec![name("x")]));
     let paren_assign = Stmt::Assign { targets: vec![Expr::Field { obj: Box::new(Expr::Paren(Box::new(name("t")))), name: "x".into() }], values: vec![num("1", 1.0)] };
-    let paren_method = Stmt::Call(Expr::MethodCall { obj: Box::new(Expr::Paren(Box::new(st("s")))), name: "rep".into(), args: vec![num("2", 2.0)], sugar: CallSugar::Parens });
+    let paren_method = Stmt::Call(Expr::MethodCall { obj: Box::new(Expr::Paren(Box::new(st("s")))), name: "rep".into(), types: None, args: vec![num("2", 2.0)], sugar: CallSugar::Parens });
     let firsts: Vec<Stmt> = vec![
         Stmt::Local { is_const: false, names: vec![Binding::new("a")], values: vec![name("b")] },
         Stmt::Local { is_const: false, names: vec![Binding::new("a")], values: vec![call(name("f"), vec![])] },
